@@ -483,16 +483,18 @@ func memDigest(mem []int) Sx {
 	return T("m", I(len(mem)), U64(uint64(h.Sum32())), I(last))
 }
 
-func abbreviate(last *[]string, k int, s Sx) Sx {
+// changed reports (k snapshot) when the snapshot of instance k differs from the last one recorded, nothing otherwise:
+// the snapshot lists of this stream are sparse, an instance that is not listed is unchanged (or no longer read)
+func changed(last *[]string, k int, s Sx, out *[]Sx) {
 	for len(*last) <= k {
 		*last = append(*last, "")
 	}
 	str := s.String()
 	if str == (*last)[k] {
-		return A("=")
+		return
 	}
 	(*last)[k] = str
-	return s
+	*out = append(*out, L(I(k), s))
 }
 
 func (w *world) shOf(k int) Sx {
@@ -536,35 +538,34 @@ func (w *world) snapshot(touched map[int]bool) []Sx {
 	if len(w.insts[tBC]) < n {
 		n = len(w.insts[tBC])
 	}
-	var cs, prs, bds, same []Sx
+	var cs, prs, bds, diff []Sx
 	for k := 0; k < n; k++ {
-		if !watch(k) {
-			cs = append(cs, A("x"))
-			continue
+		if watch(k) {
+			changed(&w.lastP, k, w.pSx(k), &cs)
 		}
-		cs = append(cs, abbreviate(&w.lastP, k, w.pSx(k)))
 	}
 	for k, it := range w.insts[tPR] {
-		if !watch(k) {
-			prs = append(prs, A("x"))
-			continue
+		if watch(k) {
+			changed(&w.lastPR, k, memDigest(it.(*probe).memory()), &prs)
 		}
-		prs = append(prs, abbreviate(&w.lastPR, k, memDigest(it.(*probe).memory())))
 	}
 	for k, it := range w.insts[tBD] {
-		if !watch(k) {
-			bds = append(bds, A("x"))
-			continue
+		if watch(k) {
+			changed(&w.lastBD, k, bdSx(it.(*leaves.BurndownAnalysis)), &bds)
 		}
-		bds = append(bds, abbreviate(&w.lastBD, k, bdSx(it.(*leaves.BurndownAnalysis))))
 	}
 	sh := w.shOf(0)
 	shs := sh.String()
 	for k := 0; k < n; k++ {
 		// every instance involved in the operation must (still) see the registry of the origin; all of them at the end
-		same = append(same, B(!(touched == nil || touched[k]) || w.shOf(k).String() == shs))
+		if (touched == nil || touched[k]) && w.shOf(k).String() != shs {
+			diff = append(diff, I(k))
+		}
 	}
-	return []Sx{T("copies", cs...), T("prs", prs...), T("bds", bds...), sh, T("shsame", same...)}
+	if w.scale && touched != nil && len(w.ops)%64 != 0 {
+		sh = T("sh", A("=")) // large cases: the registry is written out every 64 operations
+	}
+	return []Sx{T("n", I(n), I(len(w.insts[tPR])), I(len(w.insts[tBD]))), T("copies", cs...), T("prs", prs...), T("bds", bds...), sh, T("shdiff", diff...)}
 }
 
 // ---------------------------------------------------------------------------------------------------------------
